@@ -34,10 +34,40 @@ def seeds():
     return "\n".join(out)
 
 
+MISSED_WHY = {
+    "C01/eos-lf4-coefficient-digits": "5e-10 change of one LF4 coefficient: changes only the error constant, below the measurable window (stated under 'cannot reach')",
+    "C07/corruption-check-skipped": "weakened corruption test on append matters only for a few cut offsets; restart is strided in the quick tier (all offsets in thorough)",
+    "C07/offset-check-disabled": "equivalent under the prefix-cut crash model: the reader's offset checksum is redundant when files are only ever truncated",
+}
+
+
+def mutants():
+    sp = os.path.join(V, "mutants", "STATUS.json")
+    if not os.path.exists(sp):
+        return "(run tools/run_mutants.py)"
+    st = json.load(open(sp))
+    per = {}
+    for k, v in st.items():
+        pid = k.split("/")[0]
+        per.setdefault(pid, []).append((k, v))
+    out = ["| Prop | Hand-written mutants | Caught (by generation, not only corpus) | Not caught |", "|---|---|---|---|"]
+    for pid in sorted(per):
+        items = per[pid]
+        caught = [k for k, v in items if v["result"] == "CAUGHT"]
+        corpus_only = [k for k, v in items if v["result"] == "CAUGHT" and v.get("corpus_only")]
+        missed = [k for k, v in items if v["result"] != "CAUGHT"]
+        mtxt = "; ".join("`%s` (%s)" % (k.split("/")[1], MISSED_WHY.get(k, v["result"])) for k, v in items if v["result"] != "CAUGHT") or "-"
+        out.append("| %s | %d | %d%s | %s |" % (pid, len(items), len(caught), (" (%d only via corpus)" % len(corpus_only)) if corpus_only else "", mtxt))
+    tot = sum(len(v) for v in per.values())
+    totc = sum(1 for v in st.values() if v["result"] == "CAUGHT")
+    out.append("| all | %d | %d | |" % (tot, totc))
+    return "\n".join(out)
+
+
 def main():
     p = os.path.join(V, "DESIGN.md")
     s = open(p).read()
-    for name, fn in (("fixes", fixes), ("open", opens), ("seeds", seeds)):
+    for name, fn in (("fixes", fixes), ("open", opens), ("seeds", seeds), ("mutants", mutants)):
         b, e = "<!-- BEGIN AUTO:%s -->" % name, "<!-- END AUTO:%s -->" % name
         if b in s:
             s = s[:s.index(b) + len(b)] + "\n" + fn() + "\n" + s[s.index(e):]
